@@ -184,8 +184,13 @@ func main() {
 		coqCases = append(coqCases, lib.Tuple(lib.Str(e.Name), lib.Tuple(lib.Bool(wl), lib.Bool(nb), lib.Bool(lo))))
 		res.Cases = append(res.Cases, map[string]interface{}{"function": e.Name, "well_locked": wl, "no_block": nb, "lock_order": lo, "ir": e.IR})
 	}
-	if _, err := lib.WriteShards(args.Out, "From Relay Require Import Base.Prelude Model.LockIR Corr.C12.", "case", coqCases, res.ShardSize); err != nil {
-		panic(err)
+	if len(rep.Diagnostics) == 0 && len(rep.NotSingle) == 0 && len(rep.Errors) == 0 {
+		if _, err := lib.WriteShards(args.Out, "From Relay Require Import Base.Prelude Model.LockIR Corr.C12.", "case", coqCases, res.ShardSize); err != nil {
+			panic(err)
+		}
+	} else {
+		// the generated obligations fail, so Gen/LockGen.vo (which the cross-check loads) does not exist for this tree
+		res.Notes = append(res.Notes, "diagnostics-vs-Coq cross-check skipped: the generated obligations do not hold on this tree")
 	}
 
 	// ---- 3. static violations + search for a failing execution
@@ -193,8 +198,8 @@ func main() {
 	seen := map[string]bool{}
 	for _, d := range append(append([]diag{}, rep.Diagnostics...), rep.NotSingle...) {
 		key := d.Check + ":" + d.Func + ":" + fieldLabel(d.Field)
-		if seen[key] {
-			continue
+		if seen[key] || (d.Check == "single_section" && len(byFunc[d.Func]) > 0) {
+			continue // a function that is not even well locked is reported once, with its field
 		}
 		seen[key] = true
 		res.Count("static_violation_" + d.Check)
